@@ -104,11 +104,65 @@ Expect(ev) ==
             IF ev.f \notin DOMAIN w.regF THEN R(TRUE, DoRegF(w, ev.f, flt), {}) ELSE R(FALSE, w, {})
       [] ev.op = "UnregF" ->
             IF ev.f \in DOMAIN w.regF THEN R(TRUE, DoUnregF(w, ev.f), {}) ELSE R(FALSE, w, {})
+      [] ev.op = "QOpen" ->
+            IF ev.q \in DOMAIN w.open \/ ~FilterOK(w, flt) \/ ~TargetsOK(w, FltTargets(flt)) \/ Cardinality(DOMAIN w.open) >= 63
+            THEN [def |-> FALSE, pre |-> TRUE, w2 |-> w, foot |-> {}]
+            ELSE R(TRUE, DoQOpen(w, ev.q, flt), {})
+      [] ev.op = "QNext" ->
+            IF ev.q \notin DOMAIN w.open THEN [def |-> FALSE, pre |-> TRUE, w2 |-> w, foot |-> {}]
+            ELSE IF ev.ok THEN R(TRUE, DoQYield(w, ev.q, ev.res.e), {}) ELSE R(TRUE, DoQClose(w, ev.q), {})
+      [] ev.op = "QClose" ->
+            R(TRUE, IF ev.q \in DOMAIN w.open THEN DoQClose(w, ev.q) ELSE w, {})
+      [] ev.op = "RegO" ->
+            LET o == [ev |-> ev.obs.ev, obs |-> SetOf(ev.obs.obs), with |-> SetOf(ev.obs.with),
+                      without |-> SetOf(ev.obs.without), excl |-> ev.obs.excl] IN
+            IF ev.o \in DOMAIN w.obs \/ (o.ev \in {"OnAddRelations", "OnRemoveRelations"} /\ ~(o.obs \subseteq w.rel))
+            THEN [def |-> FALSE, pre |-> TRUE, w2 |-> w, foot |-> {}]
+            ELSE R(TRUE, DoRegO(w, ev.o, o), {})
+      [] ev.op = "UnregO" ->
+            IF ev.o \in DOMAIN w.obs THEN R(TRUE, DoUnregO(w, ev.o), {}) ELSE [def |-> FALSE, pre |-> TRUE, w2 |-> w, foot |-> {}]
+      [] ev.op = "Emit" ->
+            IF (e = Zero /\ add = {}) \/ (IsAlive(w, e) /\ add \subseteq CompsOf(w, e))
+            THEN R(TRUE, w, {}) ELSE [def |-> FALSE, pre |-> TRUE, w2 |-> w, foot |-> {}]
       [] ev.op = "Shrink" ->
             IF Locked(w) THEN [def |-> FALSE, pre |-> TRUE, w2 |-> w, foot |-> {}] ELSE R(TRUE, w, {})
       [] ev.op = "Reset" ->
             IF PreReset(w) THEN R(TRUE, DoReset(w), {}) ELSE R(FALSE, w, {})
       [] OTHER -> [def |-> FALSE, pre |-> TRUE, w2 |-> w, foot |-> {}]
+
+(***************************************************************************)
+(* Expected observer callbacks of a successful operation (C08).            *)
+(***************************************************************************)
+ExpCbs(ev, x) ==
+    LET add == SetOf(ev.add) rem == SetOf(ev.rem) e == ev.e etg == Fn(ev.tg)
+        S == x.foot
+        U(f(_)) == UNION {f(y) : y \in S}
+    IN
+    CASE ev.op = "New" -> CbsNew(w, ev.ret[1], add, etg)
+      [] ev.op = "NewBatch" -> UNION {CbsNew(w, ev.ret[i], add, etg) : i \in DOMAIN ev.ret}
+      [] ev.op = "Copy" -> CbsCopy(w, ev.ret[1], e)
+      [] ev.op = "Add" -> CbsExchange(w, e, add, {}, etg)
+      [] ev.op = "Remove" -> CbsExchange(w, e, {}, rem, EmptyFn)
+      [] ev.op = "Exchange" -> CbsExchange(w, e, add, rem, etg)
+      [] ev.op = "Set" -> IF ev.mode = "ptr" THEN {} ELSE CbsSet(w, e, add)
+      [] ev.op = "SetRel" -> CbsSetRel(w, e, etg)
+      [] ev.op = "Kill" -> CbsKill(w, e)
+      [] ev.op \in {"AddBatch", "RemoveBatch", "ExchangeBatch"} ->
+            LET f(y) == CbsExchange(w, y, add, rem, etg) IN U(f)
+      [] ev.op = "SetRelBatch" -> LET f(y) == CbsSetRel(w, y, etg) IN U(f)
+      [] ev.op = "KillBatch" -> LET f(y) == CbsKill(w, y) IN U(f)
+      [] ev.op = "Emit" -> CbsEmit(w, ev.ev, add, e)
+      [] OTHER -> {}
+
+\* the world an observer callback of phase ph must see; `late`: the executor writes the values of added
+\* components only after the call returned (ID-based API), so "post" callbacks still see zero values
+CbWorld(ev, x, ph) ==
+    IF ph = "pre" THEN w
+    ELSE IF ev.late
+         THEN [x.w2 EXCEPT !.ent = [h \in DOMAIN @ |->
+                  IF h \in x.foot THEN [@[h] EXCEPT !.v = [c \in DOMAIN @ |-> IF c \in SetOf(ev.add) THEN 0 ELSE @[c]]]
+                  ELSE @[h]]]
+         ELSE x.w2
 
 (***************************************************************************)
 (* Comparison of one op event with the expectation: the set of violations. *)
@@ -124,7 +178,9 @@ CheckOp(ev) ==
         lockMis == Locked(w) /\ ev.op # "Set"
         vPanic ==
             IF x.pre /\ ev.panic
-            THEN {V(IF RelTouched(ev) THEN "C04.valid-call-panicked" ELSE "C01.valid-call-panicked", ev.op)}
+            THEN (IF ev.op \in {"QOpen", "QNext", "QClose"} THEN {}
+                  ELSE IF Locked(w) THEN {V("C07.read-failed", ev.op)}   \* allowed on a locked world, but failed
+                  ELSE {V(IF RelTouched(ev) THEN "C04.valid-call-panicked" ELSE "C01.valid-call-panicked", ev.op)})
             ELSE IF ~x.pre /\ ~ev.panic
             THEN {V(IF lockMis THEN "C07.structural-succeeded" ELSE "C10.accepted", ev.op)}
             ELSE {}
@@ -169,31 +225,84 @@ CheckOp(ev) ==
                     \cup {V("C06.callback-count", h) : h \in {g \in x.foot \ must : cnt(g) > 1}}
                     \cup {V("C06.callback-count", es[i]) : i \in {j \in DOMAIN es : es[j] \notin x.foot}}
                ELSE {}
+        \* observers (C08: who fires; C09: what the callback sees)
+        ok == x.pre /\ ~ev.panic
+        want == IF ok THEN ExpCbs(ev, x) ELSE {}
+        gotCb == [i \in DOMAIN ev.cbs |-> [o |-> ev.cbs[i].o, e |-> ev.cbs[i].e]]
+        wantOE == {[o |-> c.o, e |-> c.e] : c \in want}
+        vC08 == {V("C08.missing", c) : c \in {d \in wantOE : \A i \in DOMAIN gotCb : gotCb[i] # d}}
+                \cup {V("C08.spurious", gotCb[i]) : i \in {j \in DOMAIN gotCb : gotCb[j] \notin wantOE}}
+                \cup {V("C08.twice", gotCb[i]) : i \in {j \in DOMAIN gotCb : \E k \in DOMAIN gotCb : k < j /\ gotCb[k] = gotCb[j]}}
+        PhOf(i) == IF \E c \in want : c.o = ev.cbs[i].o /\ c.e = ev.cbs[i].e
+                   THEN (CHOOSE c \in want : c.o = ev.cbs[i].o /\ c.e = ev.cbs[i].e).ph ELSE "none"
+        isBatchOp == isBatch \/ ev.op = "NewBatch"
+        vC09 == UNION {
+                  LET cb == ev.cbs[i] ph == PhOf(i) cw == CbWorld(ev, x, ph) IN
+                  IF ph = "none" THEN {}
+                  ELSE (IF cb.panic THEN {V("C09.callback-panicked", cb.e)} ELSE {})
+                       \cup (IF cb.e # Zero /\ ~cb.alive THEN {V("C09.not-alive", cb.e)} ELSE {})
+                       \cup (IF cb.e # Zero /\ cb.seen # 1 THEN {V("C09.seen-n-times", <<cb.e, cb.seen>>)} ELSE {})
+                       \cup (IF ~cb.panic /\ LoggedEnt([ents |-> cb.ents]) # cw.ent
+                             THEN {V(IF ph = "pre" THEN "C09.pre-state" ELSE "C09.post-state", <<cb.o, cb.e>>)} ELSE {})
+                       \cup (IF cb.locked # (IF ph = "pre" \/ isBatchOp THEN TRUE ELSE Locked(w))
+                             THEN {V("C09.lock-state", <<cb.o, cb.e, cb.locked>>)} ELSE {})
+                  : i \in DOMAIN ev.cbs}
+        \* queries that stay open (C03: what Next yields; C07: closing is always harmless)
+        vQ == IF ev.op = "QNext" /\ ev.q \in DOMAIN w.open /\ ~ev.panic
+              THEN LET oq == w.open[ev.q] r == ev.res IN
+                   IF ev.ok
+                   THEN (IF r.e \notin oq.rem
+                         THEN {V(IF r.e \in Select(w, oq.flt) THEN "C03.duplicate" ELSE "C03.extra", r.e)} ELSE {})
+                        \cup (IF r.e \in Alive(w) /\ (\/ \E c \in DOMAIN r.v : c \notin DOMAIN w.ent[r.e].v \/ r.v[c] # w.ent[r.e].v[c]
+                                                    \/ \E c \in DOMAIN r.t : c \notin DOMAIN w.ent[r.e].t \/ r.t[c] # w.ent[r.e].t[c]
+                                                    \/ ~r.ptreq)
+                              THEN {V("C03.data", r)} ELSE {})
+                   ELSE {V("C03.missing", h) : h \in oq.rem}
+              ELSE IF ev.op = "QNext" /\ ev.q \in DOMAIN w.open /\ ev.panic THEN {V("C03.query-panicked", ev.q)}
+              ELSE IF ev.op = "QClose" /\ ev.panic THEN {V("C07.close-twice", ev.q)}
+              ELSE IF ev.op = "QOpen" /\ ev.panic /\ x.def THEN {V("C07.read-failed", ev.q)}
+              ELSE {}
+        \* C15: capacities after an unbounded Shrink (or a converged loop of bounded ones), convergence
+        Pow2(n) == CHOOSE p \in {1, 2, 4, 8, 16, 32, 64, 128, 256, 512, 1024, 2048, 4096} : p >= n /\ (p = 1 \/ p \div 2 < n)
+        vShr == IF ev.op = "Shrink" /\ ev.mode \in {"all", "loop"} /\ ~ev.panic /\ x.def
+                THEN (IF ~ev.ok THEN {V(IF ev.mode = "loop" THEN "C15.no-convergence" ELSE "C15.work-left", ev.iters)} ELSE {})
+                     \cup {V("C15.cap", ev.caps[i]) : i \in {j \in DOMAIN ev.caps :
+                              LET tc == ev.caps[j] mx == IF tc.mincap > Pow2(tc.size) THEN tc.mincap ELSE Pow2(tc.size) IN
+                              tc.cap < tc.size \/ (ev.ok /\ tc.cap > mx)}}
+                ELSE {}
     IN [def |-> x.def, next |-> exp,
-        vs |-> IF x.def THEN vPanic \cup vDup \cup vAlive \cup vCount \cup vEnt \cup vLock \cup vCb ELSE {}]
+        vs |-> IF x.def THEN vPanic \cup vDup \cup vAlive \cup vCount \cup vEnt \cup vLock \cup vCb \cup vC08 \cup vC09 \cup vQ \cup vShr ELSE {}]
 
 (***************************************************************************)
 (* Probes: a query / Count / EntityAt battery run by the executor.         *)
 (***************************************************************************)
+Bag(seq) == [x \in SetOf(seq) |-> Cardinality({i \in DOMAIN seq : seq[i] = x})]
+
 CheckProbe(ev) ==
     LET flt == FltOf(ev.flt)
         S   == Select(w, flt)
         vis == ev.visited
         es  == [i \in DOMAIN vis |-> vis[i].e]
-        pfx == IF ev.f # 0 THEN "C05." ELSE "C03."
-        vMissing == {V(pfx \o "missing", h) : h \in {g \in S : \A i \in DOMAIN es : es[i] # g}}
-        vExtra   == {V(pfx \o "extra", es[i]) : i \in {j \in DOMAIN es : es[j] \notin S}}
-        vDupl    == {V(pfx \o "duplicate", es[i]) : i \in {j \in DOMAIN es : \E k \in DOMAIN es : k < j /\ es[k] = es[j]}}
+        \* C03: every query (registered or not) yields exactly the selection, once each, with the entity's data
+        vMissing == {V("C03.missing", h) : h \in {g \in S : \A i \in DOMAIN es : es[i] # g}}
+        vExtra   == {V("C03.extra", es[i]) : i \in {j \in DOMAIN es : es[j] \notin S}}
+        vDupl    == {V("C03.duplicate", es[i]) : i \in {j \in DOMAIN es : \E k \in DOMAIN es : k < j /\ es[k] = es[j]}}
         vData    == {V("C03.data", vis[i]) : i \in {j \in DOMAIN vis :
                         /\ vis[j].e \in S
                         /\ \/ \E c \in DOMAIN vis[j].v : vis[j].v[c] # w.ent[vis[j].e].v[c]
                            \/ \E c \in DOMAIN vis[j].t : vis[j].t[c] # w.ent[vis[j].e].t[c]
                            \/ ~vis[j].ptreq}}
-        vCount   == IF ev.count # Cardinality(S) THEN {V(pfx \o "count", ev.count)} ELSE {}
-        vAt      == IF ev.at # es /\ Len(es) = Cardinality(S) THEN {V(pfx \o "entityAt", ev.at)} ELSE {}
-        vPanic   == IF ev.panic THEN {V(pfx \o "query-panicked", ev.flt)} ELSE {}
+        vCount   == IF ev.count # Cardinality(S) THEN {V("C03.count", ev.count)} ELSE {}
+        vAt      == IF ev.at # es /\ Len(es) = Cardinality(S) THEN {V("C03.entityAt", ev.at)} ELSE {}
+        vPanic   == IF ev.panic THEN {V("C03.query-panicked", ev.flt)} ELSE {}
+        \* C05 (differential): a registered filter and an identical unregistered one are indistinguishable
+        vTwin    == IF ev.f = 0 THEN {}
+                    ELSE (IF Bag(es) # Bag(ev.twin_visited) THEN {V("C05.diverge", <<es, ev.twin_visited>>)} ELSE {})
+                         \cup (IF ev.count # ev.twin_count THEN {V("C05.count", <<ev.count, ev.twin_count>>)} ELSE {})
+                         \cup (IF Bag(ev.at) # Bag(ev.twin_at) THEN {V("C05.entityAt", <<ev.at, ev.twin_at>>)} ELSE {})
+                         \cup (IF ev.panic # ev.twin_panic THEN {V("C05.panic-differs", ev.panic)} ELSE {})
     IN IF ~FilterOK(w, flt) \/ ~TargetsOK(w, FltTargets(flt)) THEN {}
-       ELSE vMissing \cup vExtra \cup vDupl \cup vData \cup vCount \cup vAt \cup vPanic
+       ELSE vMissing \cup vExtra \cup vDupl \cup vData \cup vCount \cup vAt \cup vPanic \cup vTwin
 
 (***************************************************************************)
 (* The monitor's state machine.                                            *)
